@@ -1,9 +1,9 @@
 """Regenerate every generated Lean file from the current /repo (run after /repo changes back)."""
-from . import constants, fs_effects, options, xmlranges
+from . import constants, fs_effects, options, pyfun, xmlranges
 
 
 def main():
-    for m in (constants, fs_effects, options, xmlranges):
+    for m in (constants, fs_effects, options, xmlranges, pyfun):
         print(m.__name__, m.regenerate())
 
 
